@@ -61,7 +61,14 @@ func (rn *runner) aliasCase(op string, c *apd.Context, x, y *apd.Decimal, iarg i
 			return d, cp(x), cp(y)
 		})
 		run("d=x", func() (*apd.Decimal, *apd.Decimal, *apd.Decimal) { xx := cp(x); return xx, xx, cp(y) })
+		// the same with operands whose coefficient is heap-backed whatever its size (a value that was
+		// once large): struct copies and "heap means large" shortcuts show here
+		run("fresh~heap", func() (*apd.Decimal, *apd.Decimal, *apd.Decimal) {
+			return new(apd.Decimal), heapify(cp(x)), heapify(cp(y))
+		})
+		run("d=x~heap", func() (*apd.Decimal, *apd.Decimal, *apd.Decimal) { xx := heapify(cp(x)); return xx, xx, heapify(cp(y)) })
 		if def.arity == 2 {
+			run("d=y~heap", func() (*apd.Decimal, *apd.Decimal, *apd.Decimal) { yy := heapify(cp(y)); return yy, heapify(cp(x)), yy })
 			run("d=y", func() (*apd.Decimal, *apd.Decimal, *apd.Decimal) { yy := cp(y); return yy, cp(x), yy })
 			if sameDec(x, y) {
 				run("x=y", func() (*apd.Decimal, *apd.Decimal, *apd.Decimal) { xx := cp(x); return new(apd.Decimal), xx, xx })
@@ -75,6 +82,17 @@ func (rn *runner) aliasCase(op string, c *apd.Context, x, y *apd.Decimal, iarg i
 		}
 		return strings.Join(parts, " ; ") + " ; imm " + imm + " ; snap " + sn
 	})
+}
+
+// heapify moves the coefficient of d to the heap without changing its value (a BigInt that has held a
+// value beyond its inline array stays heap-backed).
+func heapify(d *apd.Decimal) *apd.Decimal {
+	if d == nil {
+		return nil
+	}
+	d.Coeff.Lsh(&d.Coeff, 200)
+	d.Coeff.Rsh(&d.Coeff, 200)
+	return d
 }
 
 // methCase: Decimal.Neg/Abs/Reduce/Set/Modf with outputs aliasing the receiver.
